@@ -220,22 +220,25 @@ PROPS['C11'] = dict(
 
 def run_streams(tier):
     n, ne, big = {'quick': (1600, 320, 300000), 'extended': (8000, 1600, 300000), 'thorough': (60000, 24000, 1000000)}[tier]
-    return [dict(name='template+crlf+bash', harness=['run', str(n), str(ne), '{seed}', '{shard}', '{nshards}', str(big)], driver='run', timeout=3000)]
+    nd = {'quick': 1600, 'extended': 8000, 'thorough': 60000}[tier]
+    return [dict(name='template+crlf+bash', harness=['run', str(n), str(ne), '{seed}', '{shard}', '{nshards}', str(big)], driver='run', timeout=3000),
+            dict(name='divider-protocol(fake shell)', harness=['divider', str(nd), '{seed}', '{shard}', '{nshards}'], driver='divider', timeout=3000)]
 
 
 PROPS['C13'] = dict(
-    family='line', tags={'B': 'run', 'L': 'run', 'G': 'run', 'O': 'run'},
-    theorems=['C13_expression_last', 'C13_expression_verbatim', 'C13_replace_crlf', 'C13_render_output', 'C13_capture_untouched', 'C13_capture_conserves_bytes'],
+    family='line', tags={'B': 'run', 'L': 'run', 'G': 'run', 'O': 'run', 'F': 'divider'},
+    theorems=['C13_expression_last', 'C13_expression_verbatim', 'C13_replace_crlf', 'C13_render_output', 'C13_capture_untouched', 'C13_capture_conserves_bytes', 'C13_divider_split_ideal'],
     streams=run_streams,
-    spec_kinds=['SPEC:C13'], corr_kinds=['DIFF:template', 'DIFF:crlf', 'DIFF:render_output', 'DIFF:capture'],
+    spec_kinds=['SPEC:C13'], corr_kinds=['DIFF:template', 'DIFF:crlf', 'DIFF:render_output', 'DIFF:capture', 'DIFF:divider'],
     case_format='B <hex state dir> <hex name> <hex shell expression>|<exit>:<hex of the script the shell received (shell = /bin/cat)>   '
                 'L <hex bytes> <keep_crlf> <strip_ansi>|<hex replace_crlf>|<hex render_output>   G <n CR LF pairs in a child process>|ok/aborted   '
-                'O <m StatefulExecutor+BashRunner | c BashScriptExecutor> <output_stream> <keep_crlf> <strip_ansi> <cmd;cmd: writes <fd><hex>+.../exit code>|<code:hex stdout:hex stderr per test>',
+                'O <m StatefulExecutor+BashRunner | c BashScriptExecutor> <output_stream> <keep_crlf> <strip_ansi> <cmd;cmd: writes <fd><hex>+.../exit code>|<code:hex stdout:hex stderr per test>   '
+                'F <number of test cases> <hex of the stdout the fake shell plays back (salt replaced by a fixed text)>|<code:hex stdout per test | err | panic>',
     rule='B: expressions assembled from scrut\'s own placeholder texts, brace fragments, quotes, newlines, non-ASCII, with state directories/names that themselves contain braces; the rendered script is read back through a shell that echoes its stdin. '
          'L: byte strings over CR, LF, ESC and letters for every keep_crlf/strip setting; G: 300 000 (thorough 1 000 000) CR LF pairs in a child process. '
          'O: 1-3 commands, each 1-3 writes to stdout/stderr of arbitrary bytes (NUL, invalid UTF-8, CRLF, divider/placeholder look-alikes, with and without final newline) and exit codes 0..255, through both executors with real /bin/bash, all output_stream settings. '
          'Non-trivial: every case; distinct by case text',
-    manifest=dict(text='Machine-checked theorems (Coq): (a) with the replace chain in the order regenerated from bash_runner.rs the expression is substituted last, hence the shell receives pre ++ expression ++ post with pre/post independent of the expression whenever the rest of the script holds the placeholder once (computable premise, discharged for generated state directories by the driver); (b) replace_crlf removes exactly the CRs that are followed by LF, for outputs of any length; render_output applies only CRLF translation (unless keep_crlf) and ANSI stripping (only under its flag); (d) the capture specification conserves bytes. Tied to /repo by reading back the script BashRunner really sends, by running replace_crlf/render_output, and by differential runs of both real executors with real bash on arbitrary payloads. Partial: bytes through pipes, merge order and exit codes are runtime behaviour (bash, subprocess crate, kernel) — decided only by the differential runs; the Cram divider protocol is covered end to end, not yet by a theorem.',
+    manifest=dict(text='Machine-checked theorems (Coq): (a) with the replace chain in the order regenerated from bash_runner.rs the expression is substituted last, hence the shell receives pre ++ expression ++ post with pre/post independent of the expression whenever the rest of the script holds the placeholder once (computable premise, discharged for generated state directories by the driver); (b) replace_crlf removes exactly the CRs that are followed by LF, for outputs of any length; render_output applies only CRLF translation (unless keep_crlf) and ANSI stripping (only under its flag); (d) the capture specification conserves bytes. Tied to /repo by reading back the script BashRunner really sends, by running replace_crlf/render_output, and by differential runs of both real executors with real bash on arbitrary payloads. Partial: bytes through pipes, merge order and exit codes are runtime behaviour (bash, subprocess crate, kernel) — decided only by the differential runs; (c) the Cram divider protocol: what an ideal bash prints for the compiled script is split back into exactly the payloads and exit codes (C13_divider_split_ideal, over a borderless-prefix string-search argument), tied to /repo by playing scripted streams -- ideal and malformed -- to the real BashScriptExecutor through a fake shell.',
                   technique='Coq proof (string replace lemma + regenerated template/chain order; CRLF loop = declarative spec) + differential runs of the real executors with real bash',
                   note='Partial for the runtime half (pipes, merge order, exit codes, stack depth): exercised by differential runs only.'),
     exhaustive={'quick': False, 'thorough': False},
